@@ -68,7 +68,7 @@ fn c16_type_registry() {
 // @bound all 99 rows (concrete)
 // @oracle row-by-row equality with RFC 9204 Appendix A (independent transcription); lookup_index(name,value) of each row returns an exact hit at an index whose row has that (name,value), and a name-only query returns the FIRST row of that name
 #[kani::proof]
-#[kani::unwind(80)]
+#[kani::unwind(101)]
 fn c16_static_table_rows() {
     let mut i = 0;
     while i < 99 {
